@@ -10,6 +10,7 @@ from . import lincommon as lc
 
 PROP = "C16"
 MONITORS = ("WF",)
+HOSTILE = ('special',)
 ANCHORS = [("approximate_conditional.py", "LConjugateFactorMGaussianConditional.get_expected_moments"),
            ("approximate_conditional.py", "LConjugateFactorMGaussianConditional.get_expected_cross_terms"),
            ("approximate_conditional.py", "LConjugateFactorMGaussianConditional.affine_joint_transformation"),
